@@ -110,3 +110,86 @@ Qed.
 
 Print Assumptions header_tie.
 Print Assumptions decode_code_factors.
+
+(** * the encoder's header: how from_code_data assembles flags and argument counts *)
+
+Module Eh := PCD.Gen.SrcHeader.EncodeHeader.
+
+(* the corresponding pieces of encode_code, verbatim *)
+Definition model_encode_header (ty : option function) (varnames : list str)
+  (freevars_empty cellvars_empty future_annotations nested : bool) : res (Z * Z * Z * list flag) :=
+  let fl0 := match ty with
+             | Some f => flags_union FN_FLAGS (match fn_type f with Some t => [fntype_flag t] | None => [] end)
+             | None => []
+             end in
+  match (match ty with
+         | Some f =>
+             let '(ac, pc, kc, vn, fl) := args_to_input (fn_args f) fl0 in
+             if list_eqb str_eqb (take (zlen vn) varnames) vn then OK (ac, pc, kc, fl)
+             else Err AssertionError
+         | None => OK (0, 0, 0, fl0)
+         end) with
+  | Err e => Err e
+  | OK (argcount, posonly, kwonly, fl1) =>
+      let fl2 := if freevars_empty && cellvars_empty then flag_add NOFREE fl1 else fl1 in
+      let fl3 := if future_annotations then flag_add F_annotations fl2 else fl2 in
+      let fl4 := if nested then flag_add NESTED fl3 else fl3 in
+      OK (argcount, posonly, kwonly, fl4)
+  end.
+
+From PCD Require Proofs.SrcArgsTie.
+
+Theorem encode_header_tie : forall ty varnames fe ce fa ne,
+  Eh.header ty varnames fe ce fa ne = model_encode_header ty varnames fe ce fa ne.
+Proof.
+  intros ty varnames fe ce fa ne. unfold Eh.header, model_encode_header. cbv zeta.
+  assert (E1 : flags_union [] PCD.Gen.Src.FN_FLAGS = FN_FLAGS) by (vm_compute; reflexivity).
+  rewrite E1. destruct ty as [f|]; [|reflexivity].
+  rewrite SrcArgsTie.args_to_input_tie.
+  assert (E2 : match fn_type f with
+               | Some t => flag_add (fntype_flag t) FN_FLAGS
+               | None => FN_FLAGS
+               end = flags_union FN_FLAGS match fn_type f with Some t => [fntype_flag t] | None => [] end).
+  { destruct (fn_type f); reflexivity. }
+  rewrite E2.
+  destruct (args_to_input (fn_args f) _) as [[[[ac pc] kc] vn] fl].
+  destruct (list_eqb str_eqb (take (zlen vn) varnames) vn); reflexivity.
+Qed.
+
+(* encode_code assembles its header exactly so *)
+Lemma encode_code_header : forall c d code lm0 names varnames cellvars constants,
+  blocks_to_bytes pkey_eqb (fun k => is_str_const (fst k)) (KInner INone, PInner INone)
+     (fun s => (KInner (IStr s), PInner (IStr s))) c (cd_blocks d) (cd_addargs d) (cd_freevars d) (cd_type d)
+  = OK (code, lm0, names, varnames, cellvars, constants) ->
+  encode_code c d =
+  match model_encode_header (cd_type d) varnames
+          (match cd_freevars d with [] => true | _ => false end) (match cellvars with [] => true | _ => false end)
+          (cd_future_annotations d) (cd_nested d) with
+  | Err e => Err e
+  | OK (argcount, posonly, kwonly, fl4) =>
+      let lm1 := match cd_addline d with
+                 | Some al => add_additional_line lm0 (al_line al) (al_offs al) (zlen code)
+                 | None => lm0
+                 end in
+      match from_flags_data c fl4 with
+      | Err e => Err e
+      | OK flags =>
+          match from_line_mapping (cfg_v310 c) (modify_line_offsets lm1 (- cd_firstline d)) with
+          | Err e => Err e
+          | OK table =>
+              if negb (cfg_v38 c) && negb (posonly =? 0) then Err NotImplementedError
+              else pycode_new c argcount posonly kwonly (zlen varnames) (cd_stacksize d) flags code (map snd constants)
+                              names varnames (cd_filename d) (cd_name d) (cd_firstline d) table
+                              (cd_freevars d) cellvars
+          end
+      end
+  end.
+Proof.
+  intros c d code lm0 names varnames cellvars constants H. unfold encode_code. rewrite H. cbv zeta.
+  unfold model_encode_header. cbv zeta.
+  match goal with |- match ?X with _ => _ end = match match ?Y with _ => _ end with _ => _ end =>
+    change Y with X; destruct X as [[[[ac pc] kc] fl]|] end; [|reflexivity].
+  destruct (cd_freevars d), cellvars; reflexivity.
+Qed.
+
+Print Assumptions encode_header_tie.
